@@ -1,5 +1,6 @@
 import re
 from copy import deepcopy
+from fractions import Fraction
 from xml.sax.saxutils import escape
 
 from bs4 import BeautifulSoup, NavigableString
@@ -189,16 +190,17 @@ class DFXPReader(BaseReader):
         microseconds += int(clock_time_match.group('seconds')) * \
                         MICROSECONDS_PER_UNIT["seconds"]
         if clock_time_match.group('sub_frames'):
-            microseconds += int(clock_time_match.group('sub_frames').ljust(
-                3, '0')) * MICROSECONDS_PER_UNIT["milliseconds"]
+            sub_frames = clock_time_match.group('sub_frames')
+            microseconds += Fraction(int(sub_frames), 10 ** len(sub_frames)) * \
+                            MICROSECONDS_PER_UNIT["seconds"]
         elif clock_time_match.group('frames'):
-            microseconds += int(clock_time_match.group('frames')) / 30 * \
+            microseconds += Fraction(int(clock_time_match.group('frames')), 30) * \
                             MICROSECONDS_PER_UNIT["seconds"]
         return int(microseconds)
 
     @staticmethod
     def _convert_time_count_to_microseconds(time_count_match):
-        value = float(time_count_match.group('time_count'))
+        value = Fraction(time_count_match.group('time_count'))
         metric = time_count_match.group("metric")
         if metric == "h":
             microseconds = value * MICROSECONDS_PER_UNIT["hours"]
